@@ -226,7 +226,7 @@ FireFlags(e) == (IF ~ev[e].en THEN {"fire-disabled"} ELSE {})
 Fire(e) ==
   LET h == IF ev[e].os /\ ~OneShotLate THEN HDisable(Heap, e) ELSE Heap IN
   /\ SetHeap(h) /\ run' = e /\ opsLeft' = MaxOps /\ cbEn' = h.ev[e].en
-  /\ viol' = viol \cup FireFlags(e)
+  /\ viol' = viol \cup FireFlags(e) \cup (IF ev[e].os /\ h.ev[e].en THEN {"oneshot-enabled"} ELSE {})
 
 Sub(e) ==                                         \* next element of the copy
   /\ cur # NoCur /\ run = 0 /\ viol = {} /\ copy # <<>> /\ e = Head(copy)
@@ -288,7 +288,7 @@ OnlyEnabledFires == "fire-disabled" \notin viol /\ (run \in E => ev[run].st = "a
 \* ... and only when its descriptor was ready (at the poll of this pass) for a condition it subscribed to
 ReadyMatch == "fire-notready" \notin viol
 \* a one-shot event is already disabled when its callback runs
-OneShotDisabledInCallback == run \in E /\ ev[run].os => ~cbEn
+OneShotDisabledInCallback == "oneshot-enabled" \notin viol
 \* no step touches a deleted event or a record parked in the pool
 NoUseOfFreed == "uaf-event" \notin viol /\ "uaf-record" \notin viol
 \* no step throws
